@@ -76,14 +76,43 @@ def keys(run, p, kc):
                '%s writes keys %s; constructor accepts %s' % (c.name, sorted(ks) or 'a plain value', sorted(params)), fn=w or init,
                nontrivial=bool(ks))
     base = p.mod('tdda.constraints.base')
+    from ..pyeval import Interp, Unsupported
+    I = Interp(p)
+
+    def value_of(name):
+        node = base.consts.get(name)
+        if node is None:
+            raise AnalysisError('%s vanished from base.py' % name)
+        try:
+            return I.expr(node, {}, base)
+        except Unsupported as e:
+            raise AnalysisError('%s is not evaluable: %s' % (name, e))
+    std = tuple(value_of('STANDARD_FIELD_CONSTRAINTS'))
+    suffix = value_of('CONSTRAINT_SUFFIX_MAP')
     fm = base.consts.get('FIELD_CONSTRAINTS_MAP')
-    ok1 = fm is not None and 'STANDARD_FIELD_CONSTRAINTS' in ast.unparse(fm) and 'constraint_class(kind)' in ast.unparse(fm)
+    cc = p.fn('tdda.constraints.base.constraint_class')
+    reader = {}
+    if isinstance(fm, ast.Dict):
+        for k, v in zip(fm.keys, fm.values):
+            if isinstance(k, ast.Constant):
+                reader[k.value] = norm(v)
+    elif isinstance(fm, ast.DictComp) and len(fm.generators) == 1:
+        try:
+            it = I.expr(fm.generators[0].iter, {}, base)
+            for kind in it:
+                # the class is looked up by the name constraint_class(kind) gives
+                reader[kind] = I.call(cc, [kind])
+        except Unsupported as e:
+            raise AnalysisError('FIELD_CONSTRAINTS_MAP is not evaluable: %s' % e)
+    else:
+        raise AnalysisError('FIELD_CONSTRAINTS_MAP has an unexpected form')
+    want = {kind: I.call(cc, [kind]) for kind in std}
     fc = p.method('FieldConstraints', 'to_dict_value')
-    ok2 = 'STANDARD_FIELD_CONSTRAINTS' in ast.unparse(fc.node) and 'to_preferred_order' in ast.unparse(fc.node)
-    std = base.consts.get('STANDARD_FIELD_CONSTRAINTS')
-    ok3 = std is not None and 'CONSTRAINT_SUFFIX_MAP' in ast.unparse(std)
-    run.ob('C09-KEYS', 'tables', ok1 and ok2 and ok3,
-           'reader dispatch from STANDARD_FIELD_CONSTRAINTS=%s, writer order from it=%s, tuple derived from the suffix map=%s' % (ok1, ok2, ok3),
+    order_from_std = 'STANDARD_FIELD_CONSTRAINTS' in names_in(fc.node)
+    ok = reader == want and set(std) == set(suffix) and all(any(c_.name == name for c_ in p.classes.values()) for name in want.values()) and order_from_std
+    run.ob('C09-KEYS', 'tables', ok,
+           'the reader dispatches %d kinds (%s) to the classes constraint_class() names; the writer orders keys by the same %d kinds'
+           % (len(reader), 'equal to STANDARD_FIELD_CONSTRAINTS' if set(reader) == set(std) else 'NOT the standard kinds: %s' % sorted(set(reader) ^ set(std)), len(std)),
            rel=base.rel, line=fm.lineno if fm is not None else 1)
     run.floor('C09-KEYS', len(kc) + 1, 11)
 
